@@ -25,6 +25,8 @@ type Gateway struct {
 	// DelayNth > 0: the n-th push is answered only after DelayFor (its content is taken in on arrival)
 	DelayNth int
 	DelayFor time.Duration
+	// SlowAll > 0: every push takes that long to be processed; one that its sender has given up by then is not taken in
+	SlowAll time.Duration
 }
 
 func NewGateway(status int) *Gateway {
@@ -59,6 +61,13 @@ func NewGateway(status int) *Gateway {
 				if stage == "iteration" {
 					counts[res] += m.GetSummary().GetSampleCount()
 				}
+			}
+		}
+		if g.SlowAll > 0 {
+			select {
+			case <-time.After(g.SlowAll):
+			case <-r.Context().Done():
+				return
 			}
 		}
 		g.mu.Lock()
